@@ -137,6 +137,25 @@ pub trait DiagramRules<E: Edge, N: InnerNode<E>, T> {
     /// complemented, then we need to complement the outgoing edges as well.
     fn cofactors(tag: E::Tag, node: &N) -> Self::Cofactors<'_>;
 
+    /// Get the `n`-th cofactor of the function represented by `edge` with
+    /// respect to a level above the node referenced by `edge`, i.e., a level
+    /// that is skipped on the way to that node
+    ///
+    /// In most kinds of decision diagrams, a skipped level means that the
+    /// function does not depend on the level's variable, so every such cofactor
+    /// is `edge` itself (this is the default implementation). In diagrams with
+    /// a zero-suppression rule, however, a skipped level means that the "high"
+    /// cofactor is the empty set. This is required when swapping levels.
+    #[inline]
+    fn cofactor_skipped<M: Manager<Edge = E, InnerNode = N, Terminal = T>>(
+        manager: &M,
+        edge: &E,
+        n: usize,
+    ) -> E {
+        let _ = n;
+        manager.clone_edge(edge)
+    }
+
     /// Get the `n`-th cofactor of `node` assuming an incoming edge with `tag`
     ///
     /// This is equivalent to `Self::cofactors(tag, node).nth(n).unwrap()`.
